@@ -30,6 +30,26 @@ class GResult:
         return (tuple(self.ci), self.labels.tobytes(), self.distances.tobytes())
 
 
+def make_estimator(cls, metric, late, fixed, params):
+    """Build an estimator.  late = 0: everything through the constructor; 1: constructed with other stopping values and then
+    configured with set_params (the sklearn way, e.g. when one object is re-used in a parameter scan); 2: by attribute assignment."""
+    if not late:
+        return cls(metric, **fixed, **params)
+    decoy = {}
+    for k_, v in params.items():
+        if k_ == 'cluster_radius':
+            decoy[k_] = (v or 1.0) * 3 + 1
+        else:
+            decoy[k_] = (v or 1) + 2
+    est = cls(metric, **fixed, **decoy)
+    if late == 1:
+        est.set_params(**params)
+    else:
+        for k_, v in params.items():
+            setattr(est, k_, v)
+    return est
+
+
 def _call(e, spec, X, metric, local=False, lengths=None):
     """the actual library call for one party (the serial process or one rank)"""
     algo = spec['algo']
@@ -39,8 +59,8 @@ def _call(e, spec, X, metric, local=False, lengths=None):
     init = spec.get('init_centers')
     if algo == 'kcenters':
         if form == 'estimator':
-            est = e['kcenters'].KCenters(metric, n_clusters=spec.get('k'), cluster_radius=spec.get('cutoff'),
-                                         mpi_mode=mpi_mode)
+            est = make_estimator(e['kcenters'].KCenters, metric, spec.get('late_params', 0), dict(mpi_mode=mpi_mode),
+                                 dict(n_clusters=spec.get('k'), cluster_radius=spec.get('cutoff')))
             est.fit(X, init_centers=init)
             return est.result_, est
         extra = {}
@@ -56,9 +76,9 @@ def _call(e, spec, X, metric, local=False, lengths=None):
                                           kmedoids_updates=spec['n_iters'], mpi_mode=mpi_mode)
                 est.set_params(random_state=spec.get('random_state'))
             else:
-                est = e['hybrid'].KHybrid(metric, n_clusters=spec.get('k'), cluster_radius=spec.get('cutoff'),
-                                          kmedoids_updates=spec['n_iters'], random_state=spec.get('random_state'),
-                                          mpi_mode=mpi_mode)
+                est = make_estimator(e['hybrid'].KHybrid, metric, spec.get('late_params', 0),
+                                     dict(random_state=spec.get('random_state'), mpi_mode=mpi_mode),
+                                     dict(n_clusters=spec.get('k'), cluster_radius=spec.get('cutoff'), kmedoids_updates=spec['n_iters']))
             est.fit(X, init_centers=init)
             return est.result_, est
         extra = {}
@@ -81,7 +101,8 @@ def _call(e, spec, X, metric, local=False, lengths=None):
         if lengths is not None:
             kws['X_lengths'] = lengths
         if form == 'estimator':
-            est = e['kmedoids'].KMedoids(metric, n_clusters=kws.pop('n_clusters', None), n_iters=kws.pop('n_iters'))
+            est = make_estimator(e['kmedoids'].KMedoids, metric, spec.get('late_params', 0) if 'n_clusters' in kws else 0, {},
+                                 dict(n_clusters=kws.pop('n_clusters', None), n_iters=kws.pop('n_iters')))
             est.fit(X, **kws)
             return est.result_, est
         if spec.get('proposals') is not None:
